@@ -44,6 +44,7 @@ import (
 
 	"verif/harness/internal/engine"
 	"verif/harness/internal/ev"
+	"verif/harness/internal/loglevel"
 	"verif/harness/internal/vclock"
 )
 
@@ -898,6 +899,9 @@ func TestFlowsRetryBound(t *testing.T) {
 	defer rec.Stop()
 	rapid.Check(t, func(t *rapid.T) {
 		c := genFlowsCase().Draw(t, "case")
+		level := loglevel.Gen().Draw(t, "log level")
+		r.Class("log level " + level)
+		defer loglevel.Set(level)()
 		r.Case()
 		r.Class(fmt.Sprintf("attempts=%d", c.Flows.Attempts))
 		r.Class("condition:" + c.Flows.Cond)
@@ -919,6 +923,9 @@ func TestPolicyRetryThroughDispatcher(t *testing.T) {
 			c.Steps[i].Early = rapid.Bool().Draw(t, "early")
 			c.Steps[i].Throttled = c.Steps[i].Early && c.Steps[i].Status >= 400 && rapid.Bool().Draw(t, "throttled")
 		}
+		level := loglevel.Gen().Draw(t, "log level")
+		r.Class("log level " + level)
+		defer loglevel.Set(level)()
 		r.Case()
 		nt, bad, err := runPolicyVia(r, c, true)
 		if err != nil || bad != "" {
@@ -957,6 +964,9 @@ func TestPolicyRetryBound(t *testing.T) {
 	r := ev.New(t, "C17")
 	rapid.Check(t, func(t *rapid.T) {
 		c := genPolicyCase().Draw(t, "case")
+		level := loglevel.Gen().Draw(t, "log level")
+		r.Class("log level " + level)
+		defer loglevel.Set(level)()
 		r.Case()
 		r.Class(fmt.Sprintf("attempts=%d", c.Policy.Attempts))
 		nt, bad, err := runPolicy(r, c)
